@@ -97,6 +97,7 @@ Definition FMD_NumRows : Z := 3.
 Definition FMD_RowGroups : Z := 4.
 
 Import String.StringSyntax.
+Open Scope string_scope.
 Definition layout_ids : list (String.string * list (String.string * Z)) := [
   ("PageHeader", [("Type", PH_Type); ("UncompressedPageSize", PH_UncompressedPageSize);
                   ("CompressedPageSize", PH_CompressedPageSize); ("CRC", PH_CRC);
@@ -121,7 +122,8 @@ Definition layout_ids : list (String.string * list (String.string * Z)) := [
                 ("Ordinal", RG_Ordinal)]);
   ("FileMetaData", [("Version", FMD_Version); ("Schema", FMD_Schema); ("NumRows", FMD_NumRows);
                     ("RowGroups", FMD_RowGroups)])
-]%string.
+]%Z.
+Close Scope string_scope.
 
 (** * Input *)
 
@@ -326,16 +328,16 @@ Fixpoint lay_groups (off ci oi : N) (ordinal : N) (gs : list group_in) : list (t
 
 (** * The file (writeFileHeader, writeFileFooter) *)
 
-Definition magic : bytes := [80; 65; 82; 49].   (* "PAR1" *)
+Definition file_magic : bytes := [80; 65; 82; 49].   (* "PAR1" *)
 
 Definition groups_bytes (fi : file_in) : bytes := concat (map group_bytes (fi_groups fi)).
 Definition cindexes_bytes (fi : file_in) : bytes := concat (map (fun g => cindex_bytes (gi_chunks g)) (fi_groups fi)).
 
-Definition cindex_start (fi : file_in) : N := sizeN magic + sizeN (groups_bytes fi).
+Definition cindex_start (fi : file_in) : N := sizeN file_magic + sizeN (groups_bytes fi).
 Definition oindex_start (fi : file_in) : N := cindex_start fi + sizeN (cindexes_bytes fi).
 
 Definition laid_groups (fi : file_in) : list (tval * list tval) :=
-  lay_groups (sizeN magic) (cindex_start fi) (oindex_start fi) 0 (fi_groups fi).
+  lay_groups (sizeN file_magic) (cindex_start fi) (oindex_start fi) 0 (fi_groups fi).
 
 Definition oindexes_bytes (fi : file_in) : bytes := concat (map (fun gl => oi_bytes (snd gl)) (laid_groups fi)).
 
@@ -353,8 +355,8 @@ Definition footer_bytes (fi : file_in) : bytes := encode (footer_tree fi).
 Definition footer_start (fi : file_in) : N := oindex_start fi + sizeN (oindexes_bytes fi).
 
 Definition layout_bytes (fi : file_in) : bytes :=
-  magic ++ groups_bytes fi ++ cindexes_bytes fi ++ oindexes_bytes fi
-  ++ footer_bytes fi ++ to_le 4 (sizeN (footer_bytes fi)) ++ magic.
+  file_magic ++ groups_bytes fi ++ cindexes_bytes fi ++ oindexes_bytes fi
+  ++ footer_bytes fi ++ to_le 4 (sizeN (footer_bytes fi)) ++ file_magic.
 
 Definition layout (fi : file_in) : bytes * tval := (layout_bytes fi, footer_tree fi).
 
@@ -396,13 +398,13 @@ Fixpoint wfb (v : tval) : bool :=
 Definition ids_between (lo hi : Z) (fs : list (Z * tval)) : bool :=
   forallb (fun p => (lo <? fst p)%Z && (fst p <? hi)%Z) fs.
 
-Definition header_window : N := 4096.   (* SpecDecoder.header_window *)
+Definition hdr_window : N := 4096.   (* = SpecDecoder.header_window *)
 
 Definition page_ok (dict : bool) (p : page_in) : bool :=
   (if dict then (pg_type p =? 2)%Z else (pg_type p =? 0)%Z || (pg_type p =? 3)%Z)
   && ids_between (if (pg_type p =? 3)%Z then V2_Encoding else DPH_Encoding) (2 ^ 15) (pg_tail p)
   && wfb (header_tree p) && (need (header_tree p) <=? 64)%nat
-  && (header_size p <=? header_window).
+  && (header_size p <=? hdr_window).
 
 Definition chunk_ok (c : chunk_in) : bool :=
   forallb (page_ok true) (dict_pages c) && forallb (page_ok false) (ck_pages c)
@@ -422,3 +424,61 @@ Definition file_ok (fi : file_in) : bool :=
   && wfb (footer_tree fi) && (need (footer_tree fi) <=? 64)%nat
   && forallb (fun gl => forallb (fun oi => wfb oi && (need oi <=? 64)%nat) (snd gl)) (laid_groups fi)
   && (sizeN (footer_bytes fi) <? 2 ^ 32).
+
+(** * Recovering the input from an observed file
+
+    The harness walks a file the library wrote (footer, page headers as raw
+    thrift, page bodies, rows per data page, bloom filter and column index
+    sections) and the oracle rebuilds the input of [layout] from it.  Only the
+    fields that are not offsets / sizes / counts derived from the pages are
+    taken from the observed metadata. *)
+
+Definition filter_ids (lo hi : Z) (fs : list (Z * tval)) : list (Z * tval) :=
+  filter (fun p => (lo <? fst p)%Z && (fst p <? hi)%Z) fs.
+
+Definition fields_of (v : tval) : list (Z * tval) := match v with TStruct fs => fs | _ => [] end.
+Definition zfield (id : Z) (v : tval) : Z := match get_int id v with Some z => z | None => 0%Z end.
+Definition nfield (id : Z) (v : tval) : N := Z.to_N (zfield id v).
+Definition sfield (id : Z) (v : tval) : tval := match get id v with Some t => t | None => TStruct [] end.
+
+(* [h]: decoded page header; [nrows]: rows that start in the page *)
+Definition observe_page (h : tval) (nrows : N) (body : bytes) : page_in :=
+  let ty := match get_int PH_Type h with Some z => z | None => (-1)%Z end in
+  let v2 := (ty =? 3)%Z in
+  let inner := sfield (if (ty =? 2)%Z then PH_DictionaryPageHeader
+                       else if v2 then PH_DataPageHeaderV2 else PH_DataPageHeader) h in
+  {| pg_type := ty;
+     pg_uncomp := nfield PH_UncompressedPageSize h;
+     pg_crc := zfield PH_CRC h;
+     pg_nvalues := nfield DPH_NumValues inner;
+     pg_nnulls := if v2 then nfield V2_NumNulls inner else 0;
+     pg_nrows := nrows;
+     pg_encoding := zfield (if v2 then V2_Encoding else DPH_Encoding) inner;
+     pg_tail := filter_ids (if v2 then V2_Encoding else DPH_Encoding) (2 ^ 15) (fields_of inner);
+     pg_body := body |}.
+
+(* [md]: observed ColumnMetaData; [pages]: all pages of the chunk in file order *)
+Definition observe_chunk (md : tval) (pages : list page_in) (bloom cindex : bytes) : chunk_in :=
+  let dd := match pages with
+            | p :: r => if (pg_type p =? 2)%Z then (Some p, r) else (None, pages)
+            | [] => (None, [])
+            end in
+  {| ck_dict := fst dd; ck_pages := snd dd;
+     ck_head := filter_ids 0 CM_NumValues (fields_of md);
+     ck_kv := filter_ids CM_TotalCompressedSize CM_DataPageOffset (fields_of md);
+     ck_stats := filter_ids CM_DictionaryPageOffset CM_BloomFilterOffset (fields_of md);
+     ck_tail := filter_ids CM_BloomFilterLength (2 ^ 15) (fields_of md);
+     ck_bloom := bloom; ck_cindex := cindex |}.
+
+Definition observe_file (footer : tval) (obs : list (list (list page_in * bytes * bytes))) : file_in :=
+  let gts := match get_list FMD_RowGroups footer with Some l => l | None => [] end in
+  {| fi_groups :=
+       map (fun go =>
+              let cols := match get_list RG_Columns (fst go) with Some l => l | None => [] end in
+              {| gi_chunks := map (fun co => observe_chunk (sfield CC_MetaData (fst co))
+                                               (fst (fst (snd co))) (snd (fst (snd co))) (snd (snd co)))
+                                  (combine cols (snd go));
+                 gi_sorting := filter_ids RG_NumRows RG_FileOffset (fields_of (fst go)) |})
+           (combine gts obs);
+     fi_schema := match get FMD_Schema footer with Some s => s | None => TList T_STRUCT [] end;
+     fi_tail := filter_ids FMD_RowGroups (2 ^ 15) (fields_of footer) |}.
